@@ -296,6 +296,48 @@ def foreign_index_case():
     return None
 
 
+def two_connections_case():
+    """two connections in one process, each set up the normal way (makeConnection, handshake): the descriptors queued on one are
+    never seen by the other - also when the first connection still holds descriptors no message has claimed"""
+    from twisted.internet.testing import StringTransport
+    from txdbus import protocol, authentication
+    from .message_harness import ref_message
+
+    class Receiver(protocol.BasicDBusProtocol):
+        authenticator = authentication.ClientAuthenticator
+
+        def __init__(self): self.got = []
+        def methodCallReceived(self, m): self.got.append(m)
+        methodReturnReceived = errorReceived = signalReceived = methodCallReceived
+
+    def connect():
+        r = Receiver()
+        r.makeConnection(StringTransport())
+        r.dataReceived(b'OK 1234deadbeef\r\n')
+        if not r._authenticated:
+            return None
+        return r
+    a = connect()
+    if a is None:
+        return 'could not set up a connection through the normal handshake'
+    a.fileDescriptorReceived(40)                    # arrives early: its message is still on the way
+    b = connect()
+    for f in (50, 51):
+        b.fileDescriptorReceived(f)
+    b.dataReceived(ref_message(1, 0, 1, [(1, '/o'), (2, 'org.e.I'), (3, 'M'), (8, 'hh'), (9, 2)], 'hh', [0, 1], True))
+    a.fileDescriptorReceived(41)
+    a.dataReceived(ref_message(1, 0, 2, [(1, '/o'), (2, 'org.e.I'), (3, 'M'), (8, 'hh'), (9, 2)], 'hh', [0, 1], True))
+    c = connect()
+    c.fileDescriptorReceived(60)
+    c.dataReceived(ref_message(1, 0, 3, [(1, '/o'), (2, 'org.e.I'), (3, 'M'), (8, 'h'), (9, 1)], 'h', [0], True))
+    got = [[list(m.body) for m in x.got] for x in (a, b, c)]
+    if got != [[[40, 41]], [[50, 51]], [[60]]]:
+        return 'three connections in one process received the descriptor arguments %r, each was sent [[40, 41]], [[50, 51]], [[60]]' % (got,)
+    if a._receivedFDs or b._receivedFDs or c._receivedFDs:
+        return 'descriptors left queued: %r' % ([a._receivedFDs, b._receivedFDs, c._receivedFDs],)
+    return None
+
+
 def callremote_fresh_list_case():
     from twisted.internet.testing import StringTransport
     from txdbus import client, message
@@ -341,6 +383,13 @@ def bounded(tier, seed):
         f = 'foreign descriptor messages raised %s: %s' % (type(e).__name__, e)
     if f:
         return n, f, {'case': 'descriptor positions written by another implementation'}
+    n += 1
+    try:
+        f = two_connections_case()
+    except Exception as e:
+        f = 'two connections in one process raised %s: %s' % (type(e).__name__, e)
+    if f:
+        return n, f, {'case': 'two connections in one process'}
     n += 1
     f = callremote_fresh_list_case()
     if f:
